@@ -85,6 +85,33 @@ def judge_value(v):
             prob = (prob + "; " if prob else "") + "call raised %s" % (res[1],)
         if prob:
             recs.append({"op": op, "args": repr(args)[:200], "wire": repr(wire[:200]), "problem": prob})
+    if len(v) <= 12 and "\0" not in v:
+        # history: the value sent as script *content* goes out as the literal w = {n+}CRLF v; a script *name* that is
+        # the same octets as w is another value and must still be encoded as such -- in both orders, within one process
+        w = "{%d+}\r\n%s" % (len(v.encode("utf-8")), v)
+        seq = [("putscript", ("s", v), "PUTSCRIPT", ("s", v)), ("setactive", (w,), "SETACTIVE", (w,)),
+               ("getscript", (w,), "GETSCRIPT", (w,)), ("checkscript", (v,), "CHECKSCRIPT", (v,)),
+               ("putscript", (w, v), "PUTSCRIPT", (w, v)), ("havespace", (w, 3), "HAVESPACE", (w, 3))]
+        for op, args, verb, exp in seq:
+            exp = [e.encode("utf-8") if isinstance(e, str) else e for e in exp]
+            res, writes = one_call(op, args)
+            n += 1
+            wire = b"".join(writes)
+            if res[0] == "error" and not wire:
+                continue
+            prob = None
+            try:
+                items = rfc5804.decode(wire)
+                cmds = [i for i in items if i[0] == "cmd"]
+                if len(items) != 1 or len(cmds) != 1:
+                    prob = "%d items on the wire, expected exactly one command: %r" % (len(items), items[:3])
+                elif cmds[0][1] != verb or cmds[0][2] != exp:
+                    prob = "decoded %s %r, expected %s %r" % (cmds[0][1], cmds[0][2], verb, exp)
+            except rfc5804.Malformed as e:
+                prob = "malformed command (%s)" % e
+            if prob:
+                recs.append({"op": op, "args": repr(args)[:200], "wire": repr(wire[:200]),
+                             "problem": "in a sequence of calls (content, then a name made of the content's wire form): " + prob})
     return n, recs
 
 
